@@ -53,7 +53,7 @@ def has_keyword_ident(prog):
 
 @st.composite
 def cases(draw):
-    over = dict(keywords=draw(st.booleans()), modules=draw(st.sampled_from([1, 1, 2, 3])), max_types=7, max_methods=3)
+    over = dict(keywords=draw(st.booleans()), modules=draw(st.sampled_from([1, 1, 2, 3])), max_types=7, max_methods=3, opt_slice_returns=True)
     over.update(STEER.get("js", {}))
     # one third of the programs use what only c/cpp accept (callbacks, &[&str], 'static slices); js rejects those and is skipped
     bset = draw(st.sampled_from([["c", "cpp", "js"], ["c", "cpp", "js"], ["c", "cpp"]]))
